@@ -2677,6 +2677,17 @@ def fixed_witnesses():
       {"kind": "LinearConstraints", "tag": "D18", "units": 1, "wseed": 6, "n": 3,
        "kw": {"monotonicities": [1, 1, 0], "range_dominances": [T(0, 1)], "input_min": [0.0, 0.0, 5.0],
               "input_max": [1.0, 2.0, 5.0]}},
+      # range dominances next to a bystander input whose one-sided bound spells the open side 'none'
+      # (the projection must see canonicalised bounds; seeded change C16-m5)
+      {"kind": "LinearConstraints", "tag": "none_string_bound", "units": 1, "wseed": 19, "n": 3,
+       "kw": {"monotonicities": [1, 1, 1], "range_dominances": [T(0, 1)], "input_min": [0.0, 0.0, "none"],
+              "input_max": [1.0, 2.0, 3.0]}},
+      {"kind": "LinearConstraints", "tag": "none_string_bound", "units": 2, "wseed": 20, "n": 3,
+       "kw": {"monotonicities": [1, 1, 0], "range_dominances": [T(1, 0)], "input_min": [0.0, -1.0, 2.0],
+              "input_max": [1.0, 2.0, "None"]}},
+      {"kind": "Linear", "tag": "none_string_bound", "wseed": 21, "n": 3,
+       "kw": {"num_input_dims": 3, "units": 2, "monotonicities": [1, 1, 0], "range_dominances": [T(0, 1)],
+              "input_min": [0.0, 0.0, "none"], "input_max": [1.0, 2.0, 3.0]}},
       {"kind": "Linear", "tag": "D59", "wseed": 15, "n": 3,
        "kw": {"num_input_dims": 3, "units": 1, "monotonicities": [1, 1, 1],
               "monotonic_dominances": [T(0, 1), T(1, 2), T(2, 0)]}},
